@@ -929,7 +929,7 @@ def compare_rows(pre, post, plan):
 CONSTRAINT_MSG = ("UNIQUE constraint failed", "CHECK constraint failed", "NOT NULL constraint failed", "datatype mismatch", "FOREIGN KEY constraint failed")
 
 
-def data_caused(rec, err_message):
+def data_caused(rec, err_message, failing_sql=""):
     """C05 exempts failures caused by the existing data violating a constraint the migration introduces (or by a type change,
     whose cast feasibility the property leaves out): the engine reports a constraint failure AND the plan tightens something"""
     if not err_message.startswith(CONSTRAINT_MSG):
@@ -942,13 +942,19 @@ def data_caused(rec, err_message):
                 return True
             if ty == "add_column" and a["column"].get("foreign_key"):
                 return True
+            if ty == "modify_column_nullable" and not a["nullable"] and "UPDATE" in failing_sql:
+                return True      # the default fill value of `revision` (0, '') is not an existing parent key: outside A4
             continue
         if ty == "modify_column_type" or (ty == "modify_column_nullable" and not a["nullable"]):
             return True
-        if ty == "add_constraint" and a["constraint"]["type"] in ("unique", "check", "primary_key"):
+        if ty == "add_constraint" and a["constraint"]["type"] == "check":
             return True
-        if ty == "add_column" and (a["column"].get("unique") or a["column"].get("primary_key") or is_enum(a["column"]["type"])):
-            return True
+        if ty == "add_constraint" and a["constraint"]["type"] in ("unique", "primary_key"):
+            # data-caused only if the key involves a column that existed before (a key made only of columns this plan adds
+            # is violated by the tool's own constant fill, not by the data)
+            t = next((x for x in rec["baseline"] if x["name"] == a["table"]), None)
+            if t is None or any(col_of(t, c) is not None for c in a["constraint"]["columns"]):
+                return True
     return False
 
 
@@ -978,7 +984,7 @@ def oracle_c05_history(recs, fk_on, stop_before=None):
             judged += 1
             if err:
                 traces.append((rec["_idx"], pre, {"error": err[2]}, pre_cat))
-                if data_caused(rec, err[3]):
+                if data_caused(rec, err[3], err[4]):
                     return {"step": k, "kind": "exempt-data-violates-new-constraint", "message": err[3], "sql": err[4]}, judged, traces
                 return {"step": k, "kind": "engine-error", "action": err[0], "stmt": err[1], "flat": err[2], "message": err[3], "sql": err[4],
                         "rows_before": {t: len(v[1]) for t, v in pre.items()}}, judged, traces
@@ -1029,3 +1035,134 @@ def run_krows(cases, d, per_shard):
         for k in vflib.parse_nat_list(blocks[0] if blocks else ""):
             mism.append([k, cases[k][0]])
     return {"mismatches": mism, "errors": errors, "cases": len(cases)}
+
+
+# ------------------------------------------------------------------------------------------------ C05 check
+def run_rows_stage(res):
+    """populated runs (both pragmas) of the histories of a run_sqlite result + K-eng rows. Cached next to it."""
+    d = res["d"]
+    done = os.path.join(d, "rows_result.json")
+    if os.path.exists(done):
+        out = json.load(open(done))
+        out["failures"] = {(bool(f["fk"]), f["row"]): f for f in out["failure_list"]}
+        return out
+    rows = res["rows"]
+    H = by_history(rows)
+    c02_stop = {}
+    for (fk, i), f in res["failures"].items():
+        c02_stop[(fk, rows[i]["hist"])] = f["step"]
+    failures, cases, judged, exempt = [], [], 0, collections.Counter()
+    for fk in (True, False):
+        for h, recs in H.items():
+            f, j, traces = oracle_c05_history(recs, fk, stop_before=c02_stop.get((fk, h)))
+            judged += j
+            if f:
+                if f["kind"].startswith("exempt"):
+                    exempt[f["message"].split(":")[0]] += 1
+                else:
+                    failures.append(dict(f, fk=fk, row=recs[f["step"]]["_idx"], hist=h))
+            cases += rows_cases(rows, traces, fk)
+    krows = run_krows(cases, d, res["per_shard"])
+    out = {"failure_list": failures, "krows": krows, "judged": judged, "exempt": dict(exempt)}
+    json.dump(out, open(done, "w"), default=str)
+    out["failures"] = {(f["fk"], f["row"]): f for f in failures}
+    return out
+
+
+def c05_check(tier, seed):
+    prop = "C05"
+    chk = vflib.Check(prop, tier, seed)
+    chk.assumptions = [
+        "tie: K-sql(sqlite) and K-eng-sqlite with rows (Rows.exec_db over the model's statements vs libsqlite3 over the implementation's: row "
+        "snapshots of every table / first error position, foreign_keys ON and OFF) are evaluated inside Coq on every populated migration",
+        "each table is populated with 2-3 rows consistent with the believed pre-schema (child rows reference parent rows under whatever ON DELETE "
+        "action the model declares, one NULL per nullable column); judged only on migrations that pass C02's oracle on the empty database",
+        "exempt by the property's own wording: constraint failures caused by existing data violating a constraint the migration introduces or by a "
+        "type change (counted in coverage.theorem_coverage.exempt); the default fill value of `revision` for a foreign-key column is outside A4",
+        "PostgreSQL / MySQL row semantics are not modelled (DESIGN.md: partial for those engines); CHECK evaluation in Rows.v covers the enum "
+        "clauses and `column > n` only; SQLite type affinity is reduced to a canonical text rendering of values"]
+    chk.cov["trusted_base"] = vflib.TRUSTED_COMMON + [
+        "libsqlite3 3.40.1 through Python's sqlite3 module is the real engine; rows are read back with SELECT *",
+        "tools/sqlite_sqlparse.py (SQL text -> stmt; render(parse(s)) == s asserted for every statement)",
+        "the population scheme and the row comparison of checks/sqliterun.py (compare_rows: surviving un-retyped columns as multisets per table)"]
+    vflib.proof_stage(chk, LAYER, prop)
+    res = run_sqlite(tier, seed)
+    if "error" in res:
+        rp = vflib.write_replay(prop, "correspondence:build", {"log": res["error"]})
+        chk.violation(rp, True)
+        return chk.finish()
+    rows = res["rows"]
+    rr = run_rows_stage(res)
+    chk.cov["evaluations"] = rr["judged"]
+    touched = [r for r in rows]
+    chk.cov["distinct_nontrivial"] = nontrivial_count(rows)
+    chk.cov["rule"] = ("every migration of the generated histories (see C02) that passes the empty-database oracle is executed on a populated database "
+                       "with foreign_keys ON and OFF (evaluations counts those executions); non-trivial = migration with >=2 actions of >=2 kinds or on a "
+                       "baseline of >=2 tables, distinct by hash of (baseline, actions)")
+    chk.cov["distribution"] = distribution(rows)
+    chk.cov["traces_validated_against_impl"] = rr["krows"]["cases"]
+    sample = next((r for r in rows if r["n_tables"] >= 2 and any(a["kind"] in ("ModifyColumnNullable", "AddColumn", "ModifyColumnType") for a in r["actions"])), rows[0])
+    chk.cov["samples"] = [{"baseline": sample["baseline"], "plan": sample["plan"], "sqlite_sql": [a["sql"] for a in sample["actions"]]}]
+    ksql, krows = res["ksql"], rr["krows"]
+    chk.cov["correspondences"] = {
+        "K-sql(sqlite)": {"cases": ksql["cases"], "mismatches": len(ksql["mismatches"]), "unparsed": len(ksql["unparsed"]), "shard_errors": len(ksql["errors"])},
+        "K-eng-sqlite(rows)": {"cases": krows["cases"], "mismatches": len(krows["mismatches"]), "shard_errors": len(krows["errors"])}}
+    failures = rr["failures"]
+    known = [k for k in load_known(prop) if k.get("status") == "open"]
+    fail_rows = sorted({i for _, i in failures})
+    cls = classify(res["d"], res["idx_map"], res["per_shard"], fail_rows, sorted({k["classifier"] for k in known})) if fail_rows else {}
+    if cls is None:
+        rp = vflib.write_replay(prop, "theorem:classifiers", {"note": "Model/Known.v classifiers did not evaluate"})
+        chk.violation(rp, True)
+        cls = {}
+    covered, unexplained = collections.Counter(), []
+    for (fk, i), f in sorted(failures.items(), key=lambda kv: (kv[0][1], kv[0][0])):
+        hits = [k for k in known if cls.get(i, {}).get(k["classifier"]) and f["kind"] in k.get("failure_kinds", [f["kind"]])
+                and (k.get("pragma") is None or (k["pragma"] == "ON") == fk)]
+        if hits:
+            for k in hits:
+                covered[k["id"]] += 1
+        else:
+            unexplained.append(((fk, i), f))
+    for k in known:
+        wtag = "corpus:" + os.path.basename(k.get("witness", ""))
+        wit = [f for (fk, i), f in failures.items() if rows[i]["tag"] == wtag]
+        if wit or covered[k["id"]]:
+            chk.known_finding(k["id"], k["what"])
+        else:
+            chk.notes.append("NOTE stale known finding %s: its witness no longer fails" % k["id"])
+    by = collections.Counter(("ON" if fk else "OFF") + ":" + f["kind"] for (fk, i), f in failures.items())
+    chk.cov["theorem_coverage"] = {"populated_migrations_judged": rr["judged"], "oracle_failures": len(failures), "by_pragma_and_kind": dict(by),
+                                   "exempt": rr["exempt"], "classified_known": dict(covered), "unexplained": len(unexplained)}
+    seen_rows = set()
+    for (fk, i), f in unexplained:
+        if i in seen_rows or len(seen_rows) >= 5:
+            continue
+        seen_rows.add(i)
+        rp = vflib.write_replay(prop, "oracle", {"tier": tier, "seed": seed, "foreign_keys": "ON" if fk else "OFF", "failure": {k: v for k, v in f.items() if k != "row"},
+                                                 "input": {"history": history_of(rows, i)}, "sqlite_sql": [a["sql"] for a in rows[i]["actions"]],
+                                                 "replay_cmd": "./vf replay %s <this file>" % prop})
+        chk.violation(rp)
+    broken = []
+    if ksql["mismatches"] or ksql["unparsed"] or ksql["errors"]:
+        broken.append("K-sql(sqlite)")
+    if krows["mismatches"] or krows["errors"]:
+        broken.append("K-eng-sqlite(rows)")
+    if broken and not unexplained:
+        payload = {"tier": tier, "seed": seed, "broken": broken, "shard_errors": (ksql["errors"] + krows["errors"])[:2]}
+        first = (ksql["mismatches"] or [m[1] for m in krows["mismatches"]] or [None])[0]
+        if first is not None:
+            payload["first_differing_case"] = {"history": history_of(rows, first)}
+            payload["implementation_sql"] = [a["sql"] for a in rows[first]["actions"]]
+        rp = vflib.write_replay(prop, "correspondence:" + "+".join(broken), payload)
+        chk.violation(rp, True)
+    return chk.finish()
+
+
+def c05_replay_oracle(rows, fk):
+    for h, recs in by_history(rows).items():
+        f2, _ = oracle_c02_history(recs, fk)
+        f, _, _ = oracle_c05_history(recs, fk, stop_before=f2["step"] if f2 else None)
+        if f and not f["kind"].startswith("exempt"):
+            return f
+    return None
